@@ -108,6 +108,7 @@ def run(ctx):
     impl = h.run(cases)
     model = coqbuild.run_model(mlines)
     ctx.log(f"implementation answered {len(impl)}, model answered {len(model)}")
+    ctx.vm_crosscheck(mlines, model)
 
     def factor(ty, bs, dim):
         fty = ty if B.is_float(ty) else "f64"   # exact classes: from_f64 of the f64 coefficient
